@@ -1,3 +1,54 @@
-Require Import Base Opcode Tables Ops Tree Opt Flat Run.
-Example placeholder_C01 : True. Proof. exact I. Qed.
-Print Assumptions placeholder_C01.
+(* C01 — Eval computes the documented left-to-right short-circuit semantics.
+   Only statements; proofs in Proofs/EvalCorrect.v, EvalTop.v, SemFacts.v. *)
+Require Import Base Opcode Tables Ops Tree Opt Flat Run CompFacts EvalDefs EvalTop SemFacts.
+Open Scope Z_scope.
+
+(* The compiled flat program, run by the model of Expr.Eval, returns exactly the value or the very error of the
+   reference semantics `sem`, with exactly its fetches and operator applications in order — for EVERY tree
+   (all operators and aliases of the generated table, `if`, every literal and constant, registered operators),
+   EVERY fetcher function and EVERY registered-operator function (so every binding, including failing ones). *)
+Theorem C01_eval_is_sem : forall fetch custom t,
+  eval fetch custom (compile t) = sem_obs (sem fetch custom t).
+Proof. exact run_compile_correct. Qed.
+
+(* with the optimisations disabled the compiled tree is the parsed tree *)
+Theorem C01_unoptimised : forall custom cfg t,
+  (forall name, In name optimizations_order -> pass_on cfg name = false) -> optimize custom cfg t = t.
+Proof. exact optimize_off. Qed.
+
+(* `sem` lets the value of the last of two or more and/or operands be the operator's result without applying
+   the operator (what the engine does). On the property's domain — operands of and/or are booleans — that IS
+   the operator's result: *)
+Theorem C01_last_operand_rule : forall custom name d b acc,
+  op_kind name = Some d -> acc <> [] -> Forall (fun v => v = VBool (negb d)) acc ->
+  apply_op custom name (rev (VBool b :: acc)) = Ok (VBool b).
+Proof. exact last_operand_rule. Qed.
+
+(* errors are passed through unchanged: the first failing operand's error is the result *)
+Theorem C01_error_identity : forall fetch custom name c cs' acc tr e,
+  sem fetch custom c = (tr, Err e) -> sem_args fetch custom name (c :: cs') acc = (tr, Err e).
+Proof. exact failing_operand_stops. Qed.
+Theorem C01_if_not_bool : forall fetch custom c t f tr v, sem fetch custom c = (tr, Ok v) -> (forall b, v <> VBool b) ->
+  sem fetch custom (TIf c t f) = (tr, Err ECondNotBool).
+Proof. exact if_cond_not_bool. Qed.
+
+(* non-vacuity: an `if` under `or` under `and`, a failing variable behind a deciding operand, a landing two levels up *)
+Definition ex_fetch (n : str) (k : Z) : res value :=
+  if str_eqb n (ss "a") then Ok (VBool true) else if str_eqb n (ss "b") then Ok (VBool false)
+  else if str_eqb n (ss "z") then Ok (VInt 0) else Err (EUser 7).
+Definition ex_custom (n : str) (a : list value) : res value := Err (EUser 9).
+Definition ex_tree : tree :=
+  TOp (ss "and") false
+    [TVar (ss "a") 1;
+     TOp (ss "or") false [TVar (ss "b") 2; TIf (TVar (ss "a") 1) (TVar (ss "b") 2) (TVar (ss "boom") 3)];
+     TOp (ss "=") false [TConst (VInt 1); TOp (ss "/") false [TConst (VInt 1); TVar (ss "z") 4]]].
+Example C01_ex : eval ex_fetch ex_custom (compile ex_tree) =
+  ([OGet (ss "a") 1; OGet (ss "b") 2; OGet (ss "a") 1; OGet (ss "b") 2;
+    OCall (ss "or") false [VBool false; VBool false] (Ok (VBool false))], MVal (VBool false)).
+Proof. vm_compute. reflexivity. Qed.
+Example C01_ex_error : snd (eval ex_fetch ex_custom (compile
+    (TOp (ss "and") false [TVar (ss "a") 1; TVar (ss "boom") 3; TVar (ss "b") 2]))) = MErr (EUser 7).
+Proof. vm_compute. reflexivity. Qed.
+
+Print Assumptions C01_eval_is_sem.
+Print Assumptions C01_last_operand_rule.
